@@ -20,8 +20,8 @@ FIELDS = ["node_id", "child_id", "type", "ack", "sub_type", "payload"]
 def _strip(expr: ast.expr, selfname: str) -> Optional[Tuple[str, List[str]]]:
     """`int(self.x)` / `str(self.x)` / `self.x` -> ("x", [wrappers])."""
     wrappers = []
-    while isinstance(expr, ast.Call) and isinstance(expr.func, ast.Name) and expr.func.id in ("int", "str") and len(expr.args) == 1:
-        wrappers.append(expr.func.id)
+    while isinstance(expr, ast.Call) and isinstance(expr.func, (ast.Name, ast.Attribute)) and len(expr.args) == 1 and not expr.keywords:
+        wrappers.append(unparse(expr.func))
         expr = expr.args[0]
     if isinstance(expr, ast.Attribute) and isinstance(expr.value, ast.Name) and expr.value.id == selfname:
         return expr.attr, wrappers
@@ -47,8 +47,8 @@ def _seq_fields(node: ast.expr, selfname: str, env) -> Optional[List[Tuple[str, 
             return None
         elt = node.elt
         wr = []
-        while isinstance(elt, ast.Call) and isinstance(elt.func, ast.Name) and elt.func.id in ("str", "int") and len(elt.args) == 1:
-            wr.append(elt.func.id)
+        while isinstance(elt, ast.Call) and isinstance(elt.func, (ast.Name, ast.Attribute)) and len(elt.args) == 1 and not elt.keywords:
+            wr.append(unparse(elt.func))
             elt = elt.args[0]
         if not (isinstance(elt, ast.Name) and elt.id == gen.target.id):
             return None
@@ -220,6 +220,79 @@ def decode_layout(analysis: Analysis):
     return info, sep, payload_pos, headers, conv
 
 
+def decode_provenance(analysis: Analysis, enc_default):
+    """Decoder rules by dataflow: what is stored into the six attributes on the decoding paths.
+
+    The decoder is interpreted abstractly on a symbolic line; the stored values carry their
+    provenance (split of the (r)stripped line on the delimiter, element position, conversions).
+    """
+    from ..engine import Analysis as _A  # noqa: F401
+    from ..values import Const, Sym, Unknown
+
+    info = analysis.p.func("message:Message.decode")
+    w_dec = common.where(analysis, info, info.node)
+    ctx = analysis.context(analysis.versions[-1], "serial", "sync")
+    it = analysis.new_interp(ctx)
+    st = it.new_state()
+    m = Sym(("root", "M"), ("cls", "message:Message"))
+    data = Sym(("root", "data"), "str")
+    dec_default = _param_default(info.node, "delimiter")
+    outs = analysis.run_root(it, info.qual, [data], m, st)
+    rows = []
+    ok_paths = [o for o in outs if o[0] == "val"]
+    if not ok_paths:
+        raise AnalysisError("C02: no decoding path returns normally")
+    rows.append(("encode/decode: same delimiter", enc_default is not None and enc_default == dec_default, w_dec, f"encoder delimiter {enc_default!r}, decoder delimiter {dec_default!r}"))
+    problems = {"payload": set(), "header": set(), "split": set()}
+    hdr_order_ok = True
+    for kind, s, v in ok_paths:
+        splits = [e for e in s.events if e.kind == "call" and e.name == "str.split" and e.func == info.qual]
+        if len(splits) != 1:
+            problems["split"].add(f"{len(splits)} split calls")
+        else:
+            sp = splits[0]
+            sep = sp.args[0] if sp.args else None
+            if not (isinstance(sep, Const) and sep.value == dec_default) or len(sp.args) != 1:
+                problems["split"].add("the line is not split on the delimiter (or with a maxsplit)")
+            rl = getattr(sp.recv, "label", "") if not isinstance(sp.recv, Sym) else "data"
+            if not (isinstance(sp.recv, Sym) and sp.recv.key() == data.key()) and not (rl.startswith("rstrip(") and "data" in rl):
+                problems["split"].add(f"the split operates on {rl or sp.recv.key()!r}, not on the (right-stripped) line")
+        stores = {e.name: e.args[0] for e in s.events if e.kind == "store" and e.func == info.qual and isinstance(e.recv, Sym) and e.recv.key() == m.key()}
+        pay = stores.get("payload")
+        plabel = getattr(pay, "label", "") if pay is not None else ""
+        clean = plabel.replace("rstrip(", "")
+        if pay is None:
+            problems["payload"].add("payload is never stored")
+        elif not ((plabel.startswith("pop:") or ("item:" in plabel and "-1" in plabel)) and "split:" in plabel and "data" in plabel):
+            problems["payload"].add(f"payload is not the last field of the split line ({plabel[:70]})")
+        elif any(tok in clean for tok in ("lc@", "strip(", "lower(", "upper(", "replace", "fstr:", "binop:", "slice:", "join:")):
+            problems["payload"].add("payload is transformed between the wire and the attribute")
+        for i, name in enumerate(FIELDS[:5]):
+            hv = stores.get(name)
+            if hv is None:
+                problems["header"].add(f"{name} is never stored")
+                continue
+            lab = getattr(hv, "label", "")
+            src = getattr(hv, "src_elem", None)
+            slab = getattr(src, "label", "") if src is not None else lab
+            pos_ok = lab.startswith(f"unpack{i}:") or (slab.startswith("int(") and f"[('c', 'int', {i})]" in slab)
+            if not pos_ok:
+                hdr_order_ok = False
+            sclean = slab.replace("rstrip(", "")
+            if not (slab.startswith("int(") and "split:" in slab and "data" in slab):
+                problems["header"].add(f"{name} is not int(<field {i} of the split line>) ({slab[:60]})")
+            elif any(tok in sclean[4:] for tok in ("strip(", "lower(", "abs(", "bool(", "binop:", "fstr:")):
+                problems["header"].add(f"{name} is transformed beyond int()")
+    rows.append(("decode: the line is split once on the delimiter", not problems["split"], w_dec, "; ".join(sorted(problems["split"])) or "data.rstrip().split(delimiter)"))
+    rows.append(("decode: payload is the last field, taken verbatim", not problems["payload"], w_dec, "; ".join(sorted(problems["payload"])) or "last element of the split line"))
+    rows.append(("decode: header attributes in encoder order", hdr_order_ok, w_dec, "field i of the line is bound to the i-th header attribute"))
+    rows.append(("decode: header fields converted with int() only", not problems["header"], w_dec, "; ".join(sorted(problems["header"])) or "int(field)"))
+    # failure discipline: every decoding failure surfaces as ValueError (caught by the dispatcher)
+    bad = [o for o in outs if o[0] == "raise" and not issubclass(o[2].cls, ValueError)]
+    rows.append(("decode: malformed lines raise ValueError only", not bad, w_dec, "all failing paths raise ValueError" if not bad else f"{bad[0][2].cls.__name__}: {bad[0][2].what}"))
+    return rows
+
+
 def layout_agreement(analysis: Analysis):
     """C02-R1 as a list of (construct, ok, where, detail). Also used as the precondition of LEMMA-COPY."""
     out = []
@@ -229,16 +302,15 @@ def layout_agreement(analysis: Analysis):
     out.append(("encode: six fields in frame order", fields == FIELDS, w_enc, f"encoder joins {fields}"))
     hdr_int = all("int" in w for n, w in templ["fields"][:5]) if len(templ["fields"]) >= 5 else False
     out.append(("encode: header fields rendered through int()", hdr_int, w_enc, "each of the five header fields passes int() before str()"))
+    odd = [(n, [x for x in w if x not in ("int", "str")]) for n, w in templ["fields"] if any(x not in ("int", "str") for x in w)]
+    out.append(("encode: fields are rendered unchanged (only int() / str())", not odd, w_enc, "no other transformation between attribute and wire" if not odd else f"fields transformed on the way to the wire: {odd}"))
+    pay_w = [w for n, w in templ["fields"] if n == "payload"]
+    out.append(("encode: payload is rendered verbatim", bool(pay_w) and all(x == "str" for x in pay_w[0]), w_enc, f"payload wrappers {pay_w}"))
     out.append(("encode: exactly one trailing newline", templ["tail"] == "\n", w_enc, f"terminator {templ['tail']!r}"))
     sep = templ["sep"]
     enc_default = _param_default(enc_info.node, sep[1]) if sep[0] == "param" else sep[1]
-    dec_info, dsep, payload_pos, headers, conv = decode_layout(analysis)
-    w_dec = common.where(analysis, dec_info, dec_info.node)
-    dec_default = _param_default(dec_info.node, dsep[1]) if dsep[0] == "param" else dsep[1]
-    out.append(("encode/decode: same delimiter", enc_default is not None and enc_default == dec_default, w_dec, f"encoder delimiter {enc_default!r}, decoder delimiter {dec_default!r}"))
-    out.append(("decode: payload is the last field", payload_pos == "last", w_dec, f"payload taken from {payload_pos}"))
-    out.append(("decode: header attributes in encoder order", headers == FIELDS[:5], w_dec, f"decoder binds {headers}"))
-    out.append(("decode: header fields converted with int()", conv == "int", w_dec, f"conversion {conv}"))
+    for row in decode_provenance(analysis, enc_default):
+        out.append(row)
     # constructor: the same six names
     init = analysis.p.func("message:Message.__init__")
     names = set()
